@@ -2,7 +2,7 @@
    bool, option, unit, list, prod, sumbool, sumor to the OCaml types; andb/orb inlined; nat, N and
    positive stay Coq datatypes). *)
 From Coq Require Import List NArith Bool Arith.
-Require Import V.Regex V.Parse V.Parse2 V.Auth V.PathSpec V.Splice V.Setters V.Iter V.PathQ V.AuthMut V.Push V.SetPath V.SetAuth V.SetScheme V.PathMut V.Reference V.Cmp.
+Require Import V.Regex V.Parse V.Parse2 V.Auth V.PathSpec V.Splice V.Setters V.Iter V.PathQ V.AuthMut V.Push V.SetPath V.SetAuth V.SetScheme V.PathMut V.Reference V.Cmp V.DataUrl.
 Require Extraction.
 Require Import ExtrOcamlBasic.
 Extraction Language OCaml.
@@ -18,4 +18,5 @@ Extraction "../ocaml/model.ml"
   pm_view pm_new pm_from_path pm_push pm_pop pm_clear pm_symbolic_push pm_symbolic_push_pub pm_symbolic_append pm_normalize path_normalized pb_apply seg_texts
   relative_to path_suffix ref_suffix
   dec cmp_ref eq_ref hash_ref cmp_path eq_path hash_path cmp_authority eq_authority hash_authority cmp_key eq_key pct_key raw_key hash_pct hash_raw nsegs
+  dparse o_media_type o_base64 o_data b_media_type b_base64 b_data
   segs split join render norm.
